@@ -303,7 +303,14 @@ def dataset_like(sample_dataset: xarray.Dataset, new_dataset: xarray.Dataset) ->
     _update_no_clobber(sample_dataset.encoding, like_dataset.encoding)
     for key, sample_variable in sample_dataset.variables.items():
         new_variable = like_dataset.variables[key]
-        _update_no_clobber(sample_variable.attrs, new_variable.attrs)
+        # An attribute of the sample variable that the new variable already
+        # carries in its encoding (such as `_FillValue` on a variable that
+        # has since been decoded) must not be restored as an attribute as well,
+        # xarray refuses to write a variable that has both.
+        _update_no_clobber({
+            name: value for name, value in sample_variable.attrs.items()
+            if name not in new_variable.encoding
+        }, new_variable.attrs)
         _update_no_clobber(sample_variable.encoding, new_variable.encoding)
 
     # Done!
